@@ -291,6 +291,8 @@ def worker_main(argv):
         json.dump(out, f, default=repr)
     os.replace(tmp, outfile)
     sys.stdout.flush()
+    if os.environ.get('VERIF_COV'):
+        sys.exit(3 if 'error' in out else 0)       # normal exit: lets gcov write its counters
     os._exit(3 if 'error' in out else 0)
 
 
@@ -303,7 +305,7 @@ def _worker_env(variant, build_dirs):
     env['VERIF_BUILD'] = build_dirs[variant]
     env.pop('PURE_PYTHON', None)
     env['PYTHONDONTWRITEBYTECODE'] = '1'
-    if variant == 'san':
+    if variant == 'san' and not os.environ.get('VERIF_BUILD_OVERRIDE'):
         env.update(build.san_env())
     return env
 
@@ -439,6 +441,9 @@ def corpus_cases(pid):
 
 def build_all(variants):
     from . import build
+    over = os.environ.get('VERIF_BUILD_OVERRIDE')     # tools/coverage.py: one instrumented build for all variants
+    if over:
+        return {v: over for v in set(variants)}
     return {v: build.ensure(v) for v in sorted(set(variants))}
 
 
